@@ -1292,6 +1292,9 @@ def run(ck: Ck) -> None:
             'exit_every_failure_path_unlinks_temp': f'cleans ({ok2}) false && cleans ({fl2}) false',
             'exit_never_swallows_an_exception': f'propagates ({ok2}) false && propagates ({fl2}) true',
             'exit_success_returns_normally': f'ok_path_returns ({ok2})',
+            'exit_without_enter_does_nothing':
+                'xtree_eqb (exit_tree_unentered aw_exit_prog false) (XDone false) && '
+                'xtree_eqb (exit_tree_unentered aw_exit_prog true) (XDone true)',
             'temp_is_sibling_of_destination': 'aw_tmp_sibling',
             # the temp-name loop (c12_open_loop_least_free / c12_temp_index_bounded speak about this loop)
             'temp_loop_starts_at_1_and_is_unbounded': 'Nat.eqb aw_loop_start 1 && aw_loop_unbounded',
